@@ -1,6 +1,7 @@
 import Tea.Proofs.Modes
+import Tea.Proofs.Tty
 /-
-C17 — Exec hands the terminal over and takes it back (mode part).
+C17 — Exec hands the terminal over and takes it back (mode part; termios in section 4).
 
 "While a command started with Exec runs, [...] the terminal is in its restored state (main
 screen, cursor visible, paste/mouse/focus modes off). When it finishes, [...] the alt
@@ -170,6 +171,108 @@ example :
 example :
     modesOf (execRound ((runOps {} (startupOps { noPaste := true })).1,
       applyOps term0 (runOps {} (startupOps { noPaste := true })).2)).2 = { cursorVis := false } := by
+  decide
+
+/-! ### 4. the line discipline (termios) while the external command runs
+
+Model: Tea/Render/Tty.lean (see Tea/Props/C05.lean, section 4): settings of an abstract type
+`σ`, `s0` before Run, `raw` arbitrary. `(runTty raw isTty s0 evs k).during` lists the settings
+each external command finds (after ReleaseTerminal's `restoreInput`, before RestoreTerminal's
+`initInput`), `.between` those after start-up and after each event. -/
+
+section Termios
+variable {σ : Type}
+
+/-- vocabulary, restated: what one Exec shows and leaves -/
+theorem ttyDuring_def (raw : σ → σ) (t : TtyState σ) :
+    ttyDuring t .exec = [(restoreInput t).cur] ∧ ttyDuring t .releaseOnly = [] ∧
+    ttyDuring t .restoreOnly = [] ∧
+    ttyStep raw t .exec = initInput raw (restoreInput t) :=
+  ⟨rfl, rfl, rfl, rfl⟩
+
+theorem during_between_def (raw : σ → σ) (t : TtyState σ) (e : TtyEvent) (es : List TtyEvent) :
+    ttyDuringAll raw t [] = [] ∧
+    ttyDuringAll raw t (e :: es) = ttyDuring t e ++ ttyDuringAll raw (ttyStep raw t e) es ∧
+    ttyBetweenAll raw t [] = [] ∧
+    ttyBetweenAll raw t (e :: es) = (ttyStep raw t e).cur :: ttyBetweenAll raw (ttyStep raw t e) es :=
+  ⟨rfl, rfl, rfl, rfl⟩
+
+/-- during EVERY Exec of a history of Execs (any number, terminal or not) the settings are `s0`:
+the command sees the line discipline as it was before Run. On a terminal, between the Execs -
+after start-up and after each RestoreTerminal, while the program runs - they are `raw s0`. -/
+theorem C17_termios_during_exec (raw : σ → σ) (isTty : Bool) (s0 : σ) (evs : List TtyEvent)
+    (k : ExitKind) (h : ∀ e ∈ evs, e = .exec) :
+    (runTty raw isTty s0 evs k).during = List.replicate evs.length s0 ∧
+    (isTty = true →
+      (runTty raw isTty s0 evs k).between = List.replicate (evs.length + 1) (raw s0)) := by
+  cases isTty with
+  | true =>
+    obtain ⟨_, h2, h3⟩ := execs_taken raw s0 evs h
+    refine ⟨h2, fun _ => ?_⟩
+    show raw s0 :: ttyBetweenAll raw (taken raw s0) evs = _
+    rw [h3]; rfl
+  | false =>
+    refine ⟨?_, by simp⟩
+    have h2 := (events_notTty raw (ttyFresh false s0) evs rfl).2.1
+    have hl : (ttyDuringAll raw (ttyFresh false s0) evs).length = evs.length := by
+      clear h2
+      generalize ttyFresh false s0 = t
+      induction evs generalizing t with
+      | nil => rfl
+      | cons e es ih =>
+        have he : e = .exec := h e (List.mem_cons_self ..)
+        subst he
+        simp [ttyDuringAll, ttyDuring, ih (fun x hx => h x (List.mem_cons_of_mem _ hx))]
+    show ttyDuringAll raw (ttyFresh false s0) evs = _
+    rw [← hl]
+    exact List.eq_replicate_iff.mpr ⟨rfl, h2⟩
+
+/-- pointwise: the `i`-th command (any `i` below the number of Execs) finds `s0`, and the `i`-th
+idle stretch of a program on a terminal is in `raw s0` -/
+theorem C17_termios_during_exec_nth (raw : σ → σ) (s0 : σ) (n : Nat) (k : ExitKind) (i : Nat) :
+    (i < n → (runTty raw true s0 (List.replicate n .exec) k).during[i]? = some s0) ∧
+    (i ≤ n → (runTty raw true s0 (List.replicate n .exec) k).between[i]? = some (raw s0)) := by
+  obtain ⟨h1, h2⟩ := C17_termios_during_exec raw true s0 (List.replicate n .exec) k
+    (fun e he => List.eq_of_mem_replicate he)
+  rw [h1, h2 rfl]
+  simp only [List.length_replicate]
+  constructor
+  · intro hi; simp [hi]
+  · intro hi; simp [Nat.lt_succ_of_le hi]
+
+/-- the same holds for the command of an `exec` anywhere in a history in which releases and
+restores alternate up to it: it finds `s0` -/
+theorem C17_termios_during_exec_alternating (raw : σ → σ) (s0 : σ) (evs rest : List TtyEvent)
+    (k : ExitKind) (h : alternating false evs = true) :
+    (runTty raw true s0 (evs ++ .exec :: rest) k).during =
+      (runTty raw true s0 evs k).during ++ s0 :: ttyDuringAll raw (taken raw s0) rest := by
+  obtain ⟨rel, h1⟩ := alternating_phase raw s0 evs false h
+  have happ : ∀ (t : TtyState σ) (a b : List TtyEvent),
+      ttyDuringAll raw t (a ++ b) = ttyDuringAll raw t a ++ ttyDuringAll raw (ttyEvents raw t a) b := by
+    intro t a b
+    induction a generalizing t with
+    | nil => rfl
+    | cons e es ih => simp [ttyDuringAll, ttyEvents, ih]
+  show ttyDuringAll raw (phase raw s0 false) (evs ++ .exec :: rest) =
+    ttyDuringAll raw (phase raw s0 false) evs ++ s0 :: ttyDuringAll raw (taken raw s0) rest
+  rw [happ, h1]
+  cases rel <;> rfl
+
+end Termios
+
+/-! ### non-vacuity (termios): σ = Nat, raw = (· + 100), settings 7 before Run -/
+
+example :
+    (runTty (· + 100) true 7 [.exec, .exec] .quit).during = [7, 7] ∧
+    (runTty (· + 100) true 7 [.exec, .exec] .quit).between = [107, 107, 107] ∧
+    (runTty (· + 100) false 7 [.exec, .exec] .quit).during = [7, 7] ∧
+    (runTty (· + 100) false 7 [.exec, .exec] .quit).between = [7, 7, 7] ∧
+    (runTty (· + 100) true 7 [.releaseOnly, .exec, .exec] .ctx).during = [7, 7] := by
+  decide
+
+/-- outside the scope (RestoreTerminal without a release, see
+`Tea.Props.C05.C05_termios_double_restore_misuse`): the next command finds the raw settings -/
+example : (runTty (· + 100) true 7 [.exec, .restoreOnly, .exec] .quit).during = [7, 107] := by
   decide
 
 end Tea.Props.C17
